@@ -13,6 +13,7 @@ package index
 //   E                                                     (end of stream)
 //   Q <cap> <idx>                                         (extra StreamByFirstPacketSource probe)
 //   I <id>                                                (extra StreamByID probe)
+//   FILE / QUERY <text>                                   (C07 only: start of the next index file / a search)
 //   ENDCASE
 
 import (
@@ -45,6 +46,9 @@ type verifC01Case struct {
 	streams []verifC01Stream
 	qs      [][2]string
 	ids     []uint64
+	// used by the C07 harness only: FILE lines split the stream list into index files, QUERY lines are searches
+	fileStart []int
+	queries   []string
 }
 
 func verifU64(s string) uint64 {
@@ -135,6 +139,10 @@ func verifC01ReadCases(path string, each func(c *verifC01Case)) error {
 			})
 		case "E":
 			st = nil
+		case "FILE":
+			cur.fileStart = append(cur.fileStart, len(cur.streams))
+		case "QUERY":
+			cur.queries = append(cur.queries, strings.TrimSpace(strings.TrimPrefix(sc.Text(), "QUERY")))
 		case "Q":
 			cur.qs = append(cur.qs, [2]string{tok[1], tok[2]})
 		case "I":
